@@ -83,6 +83,9 @@ from pathlib import PurePosixPath, PurePath, Path
 from collections import OrderedDict, deque, ChainMap, Counter, defaultdict
 from types import MappingProxyType
 from mashumaro import DataClassDictMixin, pass_through
+from mashumaro.mixins.orjson import DataClassORJSONMixin
+from mashumaro.mixins.msgpack import DataClassMessagePackMixin
+from mashumaro.mixins.toml import DataClassTOMLMixin
 from mashumaro.config import BaseConfig
 from mashumaro.dialect import Dialect
 inf = float("inf")
@@ -196,6 +199,7 @@ class ClassSpec:
     base: str | None = None       # enum base: Enum/IntEnum/StrEnum/Flag/IntFlag ; data: parent class
     members: list[tuple[str, Any]] = field(default_factory=list)   # enum members
     mixin: bool = False
+    mixin_base: str = "DataClassDictMixin"    # or a format mixin (DataClassORJSONMixin / ...MessagePackMixin / ...TOMLMixin)
     total: bool = True            # TypedDict
     config: dict = field(default_factory=dict)   # Config options that do not discard information
 
@@ -224,7 +228,7 @@ class ClassSpec:
         if self.base:
             bases.append(self.base)
         elif self.mixin:
-            bases.append("DataClassDictMixin")
+            bases.append(self.mixin_base)
         head = f"@dataclass\nclass {self.name}" + (f"({', '.join(bases)})" if bases else "") + ":"
         lines = [head]
         for f in self.fields:
@@ -318,6 +322,7 @@ class GenOpts:
     any_: bool = False
     max_fields: int = 5
     mixin: bool = False
+    mixin_base: str = "DataClassDictMixin"
     coq_only: bool = False        # stay inside TyModel.sty
     configs: bool = False         # aliases + serialize_by_alias / allow_deserialization_not_by_alias / forbid_extra_keys
     spellings: bool = True        # PEP 604 / None-first unions, builtin generics, Annotated wrappers, Final fields
@@ -494,7 +499,7 @@ class SchemaGen:
         if existing and r.random() < 0.3:
             return T("data", name=r.choice(existing).name)
         name = self.fresh("D")
-        spec = ClassSpec("data", name, mixin=self.o.mixin)
+        spec = ClassSpec("data", name, mixin=self.o.mixin, mixin_base=self.o.mixin_base)
         # reserve the name first so that recursive references are possible
         self.fam.classes.append(spec)
         self.open.add(name)
